@@ -83,8 +83,11 @@ def check(run, model, tier):
     run.touch(re_, g)
     selfn = re_.params[0]
     heads = [h for h in g.loop_heads() if h.kind == 'test']
+    if len(heads) > 1:
+        # the thread loop is the outermost one; what inner loops do to the token/step pairing is judged by the per-iteration counts below
+        heads = [h for h in heads if not any(h in g.loop_body(o) for o in heads if o is not h)]
     if len(heads) != 1:
-        raise AnalysisError('run_event: expected exactly one while loop, found %d' % len(heads))
+        raise AnalysisError('run_event: expected exactly one outermost while loop, found %d' % len(heads))
     h = heads[0]
     # the spawn site binds the parameters: (run flag, fabric flag, queue)
     spawn = [(f, c) for f, ts, c in cg.spawns if re_ in ts]
